@@ -174,7 +174,7 @@ func (c *Chan[T]) Close() {
 	}
 	k := c.core
 	var perr string
-	ok := Post(&Op{Name: "close " + k.name, Obj: k.obj, Exec: func(t *Thread, _ int) {
+	ok := Post(&Op{Name: "close " + k.name, Obj: k.obj, Global: true, Exec: func(t *Thread, _ int) {
 		if k.closed {
 			perr = "close of closed channel"
 			return
